@@ -90,9 +90,6 @@ def check(src, rep):
     # state = the remembered index; input = which table decoders accept the payload (and with what); the decoders themselves are oracles
     from sa.abseval import AbsEval, AObj, AbsRaise, Sym
     from sa.sveval import Res
-    mem = [a for a in C.field_inits]
-    rep.require(len(mem) == 1, f"AutoDecoder has fields {mem}; cannot bind the remembered-index field")
-    MEM = mem[0]
     p1_idx = names.index("P1") if "P1" in names else None
     REJECT = ["ValueError", "ConstructError", "StreamError", "ConstError", "CheckError", "SelectError", "ExplicitError"]
     state = {"accept": set(), "calls": []}
@@ -131,6 +128,28 @@ def check(src, rep):
     patterns = allp if thorough else [p_ for p_ in allp if len(p_) <= 2 or len(p_) == n]
     PAY = b"\x01payload"
     fnp, fnm, fnn = C.methods["decode_message_payload"], C.methods["decode_message"], C.methods["previous_success_decoder"]
+    init_fn = C.methods.get("__init__")
+
+    def fresh(prev):
+        """an AutoDecoder whose most recent success was decoder `prev` (None: never): built by the class's own constructor and brought
+        into that state through the public API, so the representation of the remembered decoder does not matter"""
+        obj = AObj("AutoDecoder", {}, cls_key=CLS)
+        if init_fn is not None:
+            r = AE.apply(init_fn, [obj])
+            if r[0] != "value":
+                raise Undecided(f"AutoDecoder.__init__ outside the interpreted subset: {r}")
+        if prev is not None:
+            state["accept"], state["calls"] = {prev}, []
+            r = AE.apply(fnp, [obj, PAY])
+            if r[0] in ("undecided", "branch"):
+                raise Undecided(f"AutoDecoder.decode_message_payload outside the interpreted subset: {r[1]}")
+        return obj
+
+    def remembered(obj):
+        r = AE.apply(fnn, [obj])
+        if r[0] in ("undecided", "branch"):
+            raise Undecided(f"AutoDecoder.previous_success_decoder outside the interpreted subset: {r[1]}")
+        return r[1] if r[0] == "value" else f"<raises {r[1]}>"
     cells = 0
     viol = {}
 
@@ -144,7 +163,7 @@ def check(src, rep):
         for accept in patterns:
             # decode_message_payload
             for variant in ("payload", "message-frame", "message-invalid-frame", "message-readout"):
-                obj = AObj("AutoDecoder", {MEM: prev}, cls_key=CLS)
+                obj = fresh(prev)
                 state["accept"], state["calls"] = accept, []
                 if variant == "payload":
                     res = AE.apply(fnp, [obj, PAY])
@@ -182,13 +201,22 @@ def check(src, rep):
                         V("R5", "special-case", "for a P1 DataReadout the 'P1' entry must use the whole-readout decoder, every other entry the table decoder on the payload", at, f"{desc}: returns {got!r}, expected {want!r}")
                     else:
                         V("R1", "rotation", "the result is not that of the first accepting decoder in rotation order starting with the remembered one", at, f"{desc}: returns {got!r}, expected {want!r}")
-                if obj.attrs.get(MEM) != new_prev:
+                calls_now = list(state["calls"])
+                want_name = None if new_prev is None else names[new_prev]
+                got_name = remembered(obj)
+                if got_name != want_name:
                     V("R2", "stored-index" if want is not None else "memory-write-outside-success",
-                      "the index remembered on success is not the table index of the decoder that succeeded" if want is not None else
-                      "the remembered decoder index changes although nobody accepted the payload", at, f"{desc}: remembered becomes {obj.attrs.get(MEM)!r}, expected {new_prev!r}")
-                if set(obj.attrs) != {MEM}:
-                    V("R2", "extra-state", f"the AutoDecoder keeps additional state {sorted(set(obj.attrs) - {MEM})}: results can depend on more of the history than the last successful decoder", at, desc)
+                      "the decoder remembered on success is not the one whose result was returned" if want is not None else
+                      "the remembered decoder changes although nobody accepted the payload", at, f"{desc}: previous_success_decoder becomes {got_name!r}, expected {want_name!r}")
+                # the next call starts with the remembered decoder and nothing else of the history matters: same payload accepted by everybody
+                state["accept"], state["calls"] = set(range(n)), []
+                r2 = AE.apply(fnp, [obj, PAY])
+                first2 = state["calls"][0][0] if state["calls"] else None
+                if r2[0] == "value" and first2 != (new_prev if new_prev else 0):
+                    V("R2", "extra-state", "after this call the next decode does not start with the remembered decoder (the object carries other state of the history)", at,
+                      f"{desc}: next call starts with decoder {first2}, expected {new_prev if new_prev else 0}")
                 # every decoder call received the payload itself
+                state["calls"] = calls_now
                 for k, args_ in state["calls"]:
                     okarg = (args_ == (PAY,)) if k != "p1-whole" else (len(args_) == 1 and isinstance(args_[0], AObj))
                     if not okarg:
@@ -207,17 +235,17 @@ def check(src, rep):
     # empty / absent payload
     if not und:
         for pay in (None, b""):
-            obj = AObj("AutoDecoder", {MEM: 3}, cls_key=CLS)
+            obj = fresh(3)
             state["accept"], state["calls"] = set(range(n)), []
             res = AE.apply(fnm, [obj, AObj("HdlcFrame", {"payload": pay, "is_valid": True})])
-            if res[0] != "value" or res[1] is not None or obj.attrs.get(MEM) != 3:
+            if res[0] != "value" or res[1] is not None or remembered(obj) != names[3]:
                 if res[0] in ("undecided", "branch"):
                     und = f"message without payload: {res[1]!r}"
                 else:
                     V("R5", "early-exit", "a message without payload is not answered with None (leaving the remembered decoder alone)", fnm, f"payload={pay!r}: {res}")
         # previous_success_decoder
         for prev in [None] + list(range(n)):
-            res = AE.apply(fnn, [AObj("AutoDecoder", {MEM: prev}, cls_key=CLS)])
+            res = AE.apply(fnn, [fresh(prev)])
             want = None if prev is None else names[prev]
             if res[0] in ("undecided", "branch"):
                 und = f"previous_success_decoder: {res[1]!r}"
